@@ -98,6 +98,35 @@ func H08b() {
 	vReached("end")
 }
 
+// H08d: call history over the stream model. Stream B is decoded first (fresh
+// state), then stream A is decoded, encoded and integrity-checked, then B is
+// decoded again: both results for B must be deeply equal (times by instant
+// and zone offset), and so must the bytes Encode writes for them.
+func H08d() {
+	sB := vGenStream(vKindsParam(), true)
+	sA := vGenStream([]int{vKindActivity, vKindRecord, vKindActivity}, false)
+	vResetAccumulators()
+	b0, e0 := Decode(bytes.NewReader(sB.data))
+	a, ea := Decode(bytes.NewReader(sA.data))
+	if ea == nil {
+		var wa bytes.Buffer
+		_ = Encode(&wa, a, binary.BigEndian)
+	}
+	_ = CheckIntegrity(bytes.NewReader(sA.data), false)
+	_, _ = DecodeChained(bytes.NewReader(sA.data))
+	b1, e1 := Decode(bytes.NewReader(sB.data))
+	vAssert(e0 == nil && e1 == nil && b0 != nil && b1 != nil, "C08.sequence.decodes")
+	if b0 != nil && b1 != nil {
+		vSameContent(b0, b1, 3, "C08.sequence.decode-independent-of-history")
+		vAssert(b0.Header == b1.Header && b0.CRC == b1.CRC, "C08.sequence.decode-independent-of-history")
+		var w0, w1 bytes.Buffer
+		x0 := Encode(&w0, b0, binary.LittleEndian)
+		x1 := Encode(&w1, b1, binary.LittleEndian)
+		vAssert((x0 == nil) == (x1 == nil) && bytes.Equal(w0.Bytes(), w1.Bytes()), "C08.sequence.encode-independent-of-history")
+	}
+	vReached("end")
+}
+
 // H08c: Encode writes identical bytes for identical Files. The File has two
 // records with different fields set (so the union definition is built from a
 // map); the engine runs the two encodings under independent arbitrary map
@@ -149,6 +178,7 @@ func H09() {
 	}, func() {
 		f2, e2 = Decode(bytes.NewReader(s2.data))
 		_, _ = DecodeChained(bytes.NewReader(s2.data))
+		_ = CheckIntegrity(bytes.NewReader(s2.data), false)
 	})
 	vAssert(vSharedWrites() == 0, "C09.no-shared-object-is-written")
 	vTrackShared(false)
